@@ -24,6 +24,9 @@ type vfPairOpt struct {
 	KeepOpen bool
 	// FaultsDuringApp keeps the fault plan active after both handshakes completed.
 	FaultsDuringApp bool
+	// InPlace: the endpoints use the caller's Config objects themselves (the virtual timer factory is
+	// written into them) instead of clones, for checks about state a Config accumulates through use
+	InPlace bool
 }
 
 type vfPair struct {
@@ -47,7 +50,10 @@ func vfRunPair(ccfg, scfg *Config, opt vfPairOpt) *vfPair {
 	if opt.SrvAddr != "" {
 		sim.ends[1].addr = vfDAddr(opt.SrvAddr)
 	}
-	cc, sc := ccfg.Clone(), scfg.Clone()
+	cc, sc := ccfg, scfg
+	if !opt.InPlace {
+		cc, sc = ccfg.Clone(), scfg.Clone()
+	}
 	cc.NewTimer, sc.NewTimer = sim.newTimer, sim.newTimer
 	cli := Client(sim.ends[0], sim.ends[1].addr, cc)
 	srv := Server(sim.ends[1], sim.ends[0].addr, sc)
